@@ -47,7 +47,8 @@ def scenarios(rng, tier):
         elif rng.random() < 0.5: s.frame(0, query(M, own, seq=sq + 2))
         s.frame(0, emit(M, own, [(rng.choice([0, 1]), 1, mac(17), mac(18)), (1, 0, mac(19), mac(20))], seq=sq + 2))
         s.frame(0, emit(M, own, [(0, 2, mac(21), mac(22))], seq=sq + 3))
-    return [(s.text(), {})]
+    oth = other_iface_variants(s.text(), rng, 10 if tier == 'quick' else 150)
+    return [(s.text(), {}), (oth, {'family': 'other-interface'})]
 def act_shape(a):
     if a[0] == 'sleep': return ('sleep', a[1])
     f = dec(a[2])
@@ -69,7 +70,7 @@ def oracle(name, ib, mb, meta):
         if b.op.startswith('cfg 0'):
             kv = dict(t.split('=', 1) for t in b.op.split()[2:]); mtu = int(kv.get('mtu', mtu)); own = bytes.fromhex(kv.get('mac', own.hex()))
             if kv.get('mtufail') == '1' or mtu == 0: mtu = 1500 if 'c06' != 'c06' else -1   # getter fails: the responder assumes 1500 (an Emit is dropped)
-        if not b.op.startswith('frame') or b.fault: continue
+        if not b.op.startswith('frame 0 ') or b.fault: continue
         ctx, fr = frame_of(b); d = dec(fr + bytes(max(0, 36 - len(fr))))
         fill = int(b.op.split()[2], 16)
         # who the mapper is, from the frames alone (as C05 prescribes): the first Discover of a discovery service while
@@ -118,7 +119,7 @@ def count(name, lines, ib, stats, meta):
     mtu = 1500
     for b in ib:
         if b.op.startswith('cfg 0'): mtu = int(dict(t.split('=', 1) for t in b.op.split()[2:])['mtu'])
-        if not b.op.startswith('frame'): continue
+        if not b.op.startswith('frame 0 '): continue
         ctx, fr = frame_of(b); d = dec(fr + bytes(max(0, 36 - len(fr))))
         if d['opc'] != 2: continue
         stats['evaluations'] += 1
